@@ -1334,6 +1334,50 @@ fn fifo_case(n: usize, rayon: bool) -> Result<(u64, blake3::Hash), String> {
 
 fn k_mmap_special(sc: &J, r: &R) {
     let path = sc.s("path");
+    // a block device (loop device over a scratch file; needs root and losetup, skipped otherwise): its length is
+    // visible to seek but not to fstat
+    #[cfg(feature = "mmap")]
+    if path.starts_with("loop:") {
+        let n: usize = path[5..].parse().unwrap_or(0);
+        let img = std::env::temp_dir().join(format!("vf_loop_{}_{}.img", std::process::id(), n));
+        let data: Vec<u8> = (0..n).map(|i| (i % 251) as u8).collect();
+        std::fs::write(&img, &data).expect("driver: cannot write loop image");
+        let out = std::process::Command::new("losetup").args(["-f", "--show", "-r"]).arg(&img).output();
+        let dev = match out {
+            Ok(o) if o.status.success() => String::from_utf8_lossy(&o.stdout).trim().to_string(),
+            _ => String::new(),
+        };
+        if dev.is_empty() || !std::path::Path::new(&dev).exists() {
+            let _ = std::fs::remove_file(&img);
+            set(r, "skipped", "true".into());
+            set(r, "same", "true".into());
+            return;
+        }
+        let want = blake3::hash(&data);
+        let mut same = true;
+        let mut what = String::new();
+        let mut h2 = Hasher::new();
+        let r2 = h2.update_mmap(&dev).is_ok();
+        if !r2 || h2.count() != n as u64 || h2.finalize() != want {
+            same = false;
+            what = format!("block device of {} bytes: update_mmap ok={} count={}", n, r2, h2.count());
+        }
+        #[cfg(feature = "rayon")]
+        {
+            let mut h3 = Hasher::new();
+            let r3 = h3.update_mmap_rayon(&dev).is_ok();
+            if !r3 || h3.count() != n as u64 || h3.finalize() != want {
+                same = false;
+                what = format!("block device of {} bytes: update_mmap_rayon ok={} count={}", n, r3, h3.count());
+            }
+        }
+        let _ = std::process::Command::new("losetup").arg("-d").arg(&dev).status();
+        let _ = std::fs::remove_file(&img);
+        set(r, "skipped", "false".into());
+        set(r, "same", same.to_string());
+        set(r, "detail", esc(&what));
+        return;
+    }
     #[cfg(feature = "mmap")]
     if path.starts_with("fifo:") {
         let n: usize = path[5..].parse().unwrap_or(0);
